@@ -233,3 +233,221 @@ Proof.
   pose proof (hinv_run y Hy ops (init_realm cfg) (k0 cfg) W I Ho Hk (hinv_init cfg y ltac:(lia))) as [_ _ G].
   rewrite <- trace_eq in G. eapply G; eauto.
 Qed.
+
+(** no INVOCATION is ever addressed to the meta session in the trace (it is
+    consumed inside the step), so the hypothesis [y <> meta_id] can be dropped *)
+Lemma step_no_inv_to_meta : forall r o k b,
+    realm_wf r -> ids_below k r -> k < max_idN -> op_ok o ->
+    forall e, In e (step_events o (snd (step r o))) -> ~ inv_ev meta_id b e.
+Proof.
+  intros r o k b W I Hk Ho e Hin He.
+  destruct (step_inv_facts r o k W I Hk Ho) as [Q|[Q|Q]].
+  - destruct Q as [A _ _ _]. exact (step_events_no_inv meta_id o _ A e b Hin He).
+  - destruct Q as (y' & b' & rid & det & a & kw & Eo & Hy' & _). rewrite Eo in Hin.
+    destruct Hin as [<-|[<-|[]]]; destruct He as (? & ? & ? & ? & He); [discriminate|].
+    inversion He; subst. contradiction.
+  - destruct Q as (sid & l & h & _ & _ & A & _). exact (step_events_no_inv meta_id o _ A e b Hin He).
+Qed.
+
+Lemma trace_no_inv_to_meta : forall ops r k b,
+    realm_wf r -> ids_below k r -> Forall op_ok ops -> k + N.of_nat (List.length ops) <= max_idN ->
+    forall e, In e (trace_from r ops) -> ~ inv_ev meta_id b e.
+Proof.
+  induction ops as [|o ops IH]; intros r k b W I Ho Hk e Hin; [destruct Hin|].
+  cbn [trace_from] in Hin. cbn [List.length] in Hk. inversion Ho as [|? ? Ho1 Ho2]; subst.
+  assert (Hk1 : k < max_idN) by lia.
+  apply in_app_or in Hin. destruct Hin as [Hin|Hin].
+  - eapply step_no_inv_to_meta; eauto.
+  - destruct (step_wf r o k W I Hk1 Ho1) as [W1 I1].
+    apply (IH (fst (step r o)) (k + 1) b W1 I1 Ho2); [lia|exact Hin].
+Qed.
+
+Theorem invocation_ids_increase_all_proof : forall cfg ops y pre e post b,
+    Forall op_ok ops -> k0 cfg + N.of_nat (List.length ops) <= max_idN ->
+    trace cfg ops = pre ++ e :: post -> inv_ev y b e ->
+    (forall i, sent_live y i pre -> i < b) \/ sent y b pre.
+Proof.
+  intros cfg ops y pre e post b Ho Hk E He.
+  destruct (N.eq_dec y meta_id) as [->|Hy]; [|eapply invocation_ids_increase_proof; eauto].
+  exfalso. destruct (init_realm_wf cfg) as [W I]; [lia|].
+  apply (trace_no_inv_to_meta ops (init_realm cfg) (k0 cfg) b W I Ho Hk e); [|exact He].
+  rewrite <- trace_eq, E. apply in_or_app. right. now left.
+Qed.
+
+(** ** After UNREGISTERED *)
+(** the gate admits an UNREGISTER as the UNREGISTER it received *)
+Definition gate_unreg_id (r : realm) (o : op) : Prop :=
+  forall sid q rid orc s m', o = OMsg sid (CUnregister q rid) orc -> find_session (r_clients r) sid = Some s ->
+    gate r s (CUnregister q rid) = inl m' -> m' = CUnregister q rid.
+
+Lemma along_app : forall P a b r, along P r (a ++ b) <-> along P r a /\ along P (fst (run r a)) b.
+Proof.
+  intros P. induction a as [|o a IH]; intros b r; cbn [app along].
+  - rewrite run_nil. cbn [fst]. tauto.
+  - rewrite run_cons. cbn [fst]. rewrite IH. tauto.
+Qed.
+
+Section Unreg.
+  Variables y rid : N.
+  Hypothesis Hy : y <> meta_id.
+
+  Definition uin (q orc : N) : event := EIn (OMsg y (CUnregister q rid) orc).
+  Definition uout (q : N) : event := EOut (y, RUnregistered q).
+  Definition regd (mid : list event) : Prop := exists q', In (EOut (y, RRegistered q' rid)) mid.
+
+  Definition pb (tr : list event) (r : realm) : Prop :=
+    forall pre0 q orc mid, tr = pre0 ++ uin q orc :: uout q :: mid ->
+      regd mid \/ not_callee y rid (r_dealer r).
+
+  Definition goodb (tr : list event) : Prop :=
+    forall pre0 q orc mid b det a kw post,
+      tr = pre0 ++ uin q orc :: uout q :: mid ++ EOut (y, RInvocation b rid det a kw) :: post ->
+      regd mid \/ sent y b (pre0 ++ uin q orc :: uout q :: mid).
+
+  Lemma regd_app : forall a b, regd a \/ regd b -> regd (a ++ b).
+  Proof. intros a b [(q & H)|(q & H)]; exists q; apply in_or_app; auto. Qed.
+
+  Lemma step_events_head : forall o out p0 q orc rest,
+      step_events o out = p0 ++ uin q orc :: rest -> p0 = [] /\ o = OMsg y (CUnregister q rid) orc /\ map EOut out = rest.
+  Proof.
+    intros o out p0 q orc rest E. unfold step_events in E. destruct p0 as [|x p0]; cbn in E.
+    - inversion E; subst. auto.
+    - inversion E as [[X1 X2]]. exfalso.
+      assert (Hin : In (uin q orc) (map EOut out)) by (rewrite X2; apply in_or_app; right; now left).
+      apply in_map_iff in Hin. destruct Hin as (m & Em & _). discriminate Em.
+  Qed.
+
+  Theorem unreg_step : forall tr r o k,
+      realm_wf r -> ids_below k r -> k < max_idN -> op_ok o -> gate_unreg_id r o ->
+      hinv y tr r -> pb tr r -> goodb tr ->
+      pb (tr ++ step_events o (snd (step r o))) (fst (step r o)) /\
+      goodb (tr ++ step_events o (snd (step r o))).
+  Proof.
+    intros tr r o k W I Hk Ho Hg H P G.
+    pose proof (step_inv_facts r o k W I Hk Ho) as Facts.
+    (* what the step does to "not a callee of rid" *)
+    assert (Keep : not_callee y rid (r_dealer r) ->
+                   not_callee y rid (r_dealer (fst (step r o))) \/ regd (step_events o (snd (step r o)))).
+    { intros N0. destruct Facts as [Q|[Q|Q]].
+      - destruct (qs_callees _ _ _ Q y rid N0) as [N1|(q' & Hq)]; [now left|].
+        right. exists q'. right. apply in_map_iff. exists (y, RRegistered q' rid). auto.
+      - destruct Q as (_ & _ & _ & _ & _ & _ & _ & _ & Cle & _). left. eapply cle_not_callee; eauto.
+      - destruct Q as (_ & _ & _ & _ & _ & _ & Ed & _). left. now rewrite Ed. }
+    split.
+    - (* pb *)
+      intros pre0 q orc mid E.
+      destruct (app_split tr _ pre0 (uout q :: mid) (uin q orc) E) as [(post0 & E1 & E2)|(p0 & E1 & E2)].
+      + destruct post0 as [|x mid0]; cbn [app] in E2.
+        { unfold step_events in E2. discriminate E2. }
+        inversion E2 as [[X1 X2]]. subst x.
+        destruct (P pre0 q orc mid0 E1) as [R|N0].
+        * left. apply regd_app. now left.
+        * destruct (Keep N0) as [N1|R]; [now right|]. left. apply regd_app. now right.
+      + destruct (step_events_head _ _ _ _ _ _ E2) as (-> & -> & Eout). right.
+        assert (Hin : In (y, RUnregistered q) (snd (step r (OMsg y (CUnregister q rid) orc)))).
+        { assert (Hin' : In (uout q) (map EOut (snd (step r (OMsg y (CUnregister q rid) orc))))) by (rewrite Eout; now left).
+          apply in_map_iff in Hin'. destruct Hin' as (m & Em & Hm). inversion Em; subst. exact Hm. }
+        destruct (find_session (r_clients r) y) as [s|] eqn:F.
+        2:{ rewrite step_msg_eq, F in Hin. destruct Hin. }
+        destruct (gate r s (CUnregister q rid)) as [m'|out'] eqn:Eg.
+        * rewrite (Hg y q rid orc s m' eq_refl F Eg) in Eg.
+          eapply unregistered_not_callee; eauto.
+        * exfalso. rewrite step_msg_eq, F, Eg in Hin. cbn [snd] in Hin.
+          destruct (gate_refusal_shape r s _ out' Eg) as [->|(det & e & a & ->)]; [destruct Hin|].
+          destruct Hin as [Hin|[]]. discriminate Hin.
+    - (* goodb *)
+      intros pre0 q orc mid b det a kw post E.
+      replace (pre0 ++ uin q orc :: uout q :: mid ++ EOut (y, RInvocation b rid det a kw) :: post)
+        with ((pre0 ++ uin q orc :: uout q :: mid) ++ EOut (y, RInvocation b rid det a kw) :: post) in E
+        by (rewrite <- app_assoc; reflexivity).
+      destruct (app_split tr _ _ post _ E) as [(post0 & E1 & _)|(p0 & E1 & E2)].
+      + eapply G. rewrite E1, <- app_assoc. reflexivity.
+      + (* the INVOCATION is sent by this step *)
+        assert (Hin : In (y, RInvocation b rid det a kw) (snd (step r o))).
+        { assert (Hin' : In (EOut (y, RInvocation b rid det a kw)) (step_events o (snd (step r o))))
+            by (rewrite E2; apply in_or_app; right; now left).
+          destruct Hin' as [Hd|Hin']; [discriminate Hd|].
+          apply in_map_iff in Hin'. destruct Hin' as (m & Em & Hm). inversion Em; subst. exact Hm. }
+        destruct Facts as [Q|[Q|Q]].
+        * exfalso. pose proof (qs_noinv _ _ _ Q _ Hin) as X. discriminate X.
+        * destruct Q as (y' & b' & rid' & det' & a' & kw' & Eo & _ & _ & _ & Kind).
+          rewrite Eo in Hin, E2. destruct Hin as [Em|[]]. inversion Em; subst y' b' rid' det' a' kw'.
+          assert (Ep0 : p0 = [EIn o]).
+          { unfold step_events in E2. cbn [map] in E2. destruct p0 as [|x [|x2 p0]].
+            - discriminate E2.
+            - inversion E2; subst. reflexivity.
+            - inversion E2 as [[X1 X2 X3]]. destruct p0; discriminate X3. }
+          subst p0. rewrite E1.
+          (* where the UNREGISTER pattern lies: inside [tr] *)
+          destruct (app_split tr [EIn o] pre0 (uout q :: mid) (uin q orc) (eq_sym E1)) as [(post1 & F1 & F2)|(p1 & _ & F2)].
+          2:{ exfalso. destruct p1 as [|x1 [|x2 p1]]; cbn in F2; try discriminate F2.
+              all: try (inversion F2 as [[X1 X2]]; destruct p1; discriminate X2). }
+          destruct post1 as [|x mid0]; cbn [app] in F2; [discriminate F2|].
+          inversion F2 as [[X1 X2]]. subst x.
+          destruct (P pre0 q orc mid0 F1) as [R|N0].
+          -- left. apply regd_app. now left.
+          -- destruct Kind as [(Hkey & _)|(sy & sy2 & rg & _ & _ & _ & _ & Hr & Hcal & _)].
+             ++ right. apply sent_app. left. apply (hi_keys y tr r H). exact Hkey.
+             ++ exfalso. exact (N0 rg Hr Hcal).
+        * exfalso. destruct Q as (_ & _ & _ & _ & _ & A & _). pose proof (A _ Hin) as X. discriminate X.
+  Qed.
+
+  Theorem unreg_run : forall ops r k,
+      realm_wf r -> ids_below k r -> Forall op_ok ops -> k + N.of_nat (List.length ops) <= max_idN ->
+      along gate_unreg_id r ops -> hinv y [] r ->
+      pb (trace_from r ops) (fst (run r ops)) /\ goodb (trace_from r ops).
+  Proof.
+    intros ops; induction ops as [|o ops IH] using rev_ind; intros r k W I Ho Hk Hg H0.
+    - split.
+      + intros pre0 q orc mid E. destruct pre0; discriminate E.
+      + intros pre0 q orc mid b det a kw post E. destruct pre0; discriminate E.
+    - rewrite trace_from_snoc, run_app1. rewrite app_length in Hk. cbn [List.length] in Hk.
+      apply Forall_app in Ho. destruct Ho as [Ho1 Ho2]. inversion Ho2; subst.
+      apply along_app in Hg. destruct Hg as [Hg1 Hg2]. cbn [along] in Hg2. destruct Hg2 as [Hg2 _].
+      destruct (run_wf ops r k W I Ho1) as [W1 I1]; [lia|].
+      destruct (IH r k W I Ho1) as [P G]; [lia|exact Hg1|exact H0|].
+      apply (unreg_step _ _ _ (k + N.of_nat (List.length ops)) W1 I1); [lia|assumption|exact Hg2| |exact P|exact G].
+      apply (hinv_run y Hy ops r k); auto. lia.
+  Qed.
+End Unreg.
+
+Theorem no_invocation_after_unregistered_proof : forall cfg ops y rid pre0 q orc mid b det a kw post,
+    Forall op_ok ops -> k0 cfg + N.of_nat (List.length ops) <= max_idN ->
+    along gate_unreg_id (init_realm cfg) ops ->
+    trace cfg ops = pre0 ++ EIn (OMsg y (CUnregister q rid) orc) :: EOut (y, RUnregistered q) ::
+                    mid ++ EOut (y, RInvocation b rid det a kw) :: post ->
+    (exists q', In (EOut (y, RRegistered q' rid)) mid) \/
+    sent y b (pre0 ++ EIn (OMsg y (CUnregister q rid) orc) :: EOut (y, RUnregistered q) :: mid).
+Proof.
+  intros cfg ops y rid pre0 q orc mid b det a kw post Ho Hk Hg E.
+  destruct (init_realm_wf cfg) as [W I]; [lia|].
+  assert (Hy : y <> meta_id).
+  { intros ->. apply (trace_no_inv_to_meta ops (init_realm cfg) (k0 cfg) b W I Ho Hk (EOut (meta_id, RInvocation b rid det a kw))).
+    - rewrite <- trace_eq, E. apply in_or_app. right. right. right. apply in_or_app. right. now left.
+    - do 4 eexists; reflexivity. }
+  destruct (unreg_run y rid Hy ops (init_realm cfg) (k0 cfg) W I Ho Hk Hg (hinv_init cfg y ltac:(lia))) as [_ G].
+  rewrite <- trace_eq in G. eapply G. exact E.
+Qed.
+
+(** the gate hypothesis, discharged *)
+Lemma gate_unreg_id_no_authz : forall cfg ops, c_authz cfg = None -> along gate_unreg_id (init_realm cfg) ops.
+Proof.
+  intros cfg ops H. apply (along_cfg gate_unreg_id cfg); [|apply init_realm_cfg].
+  intros r o E sid q rid orc s m' _ _. rewrite gate_none by (rewrite E; exact H). intros X; inversion X; reflexivity.
+Qed.
+
+(** an authorizer that never alters an UNREGISTER *)
+Definition authz_keeps_unregister (cfg : config) : Prop :=
+  forall f, c_authz cfg = Some f -> forall sid lc det q rid m',
+    f sid lc det (CUnregister q rid) = AAllow m' -> m' = CUnregister q rid.
+
+Lemma gate_unreg_id_static : forall cfg ops, authz_keeps_unregister cfg -> along gate_unreg_id (init_realm cfg) ops.
+Proof.
+  intros cfg ops H. apply (along_cfg gate_unreg_id cfg); [|apply init_realm_cfg].
+  intros r o E sid q rid orc s m' _ _. unfold gate. rewrite E.
+  destruct (c_authz cfg) as [f|] eqn:Ef; [|intros X; inversion X; reflexivity].
+  destruct (s_local s && negb (c_local_authz cfg)); [intros X; inversion X; reflexivity|].
+  specialize (H f Ef (s_id s) (s_local s) (s_details s) q rid).
+  destruct (f (s_id s) (s_local s) (s_details s) (CUnregister q rid)); [|discriminate|discriminate].
+  intros X; inversion X; subst. now apply H.
+Qed.
